@@ -301,7 +301,7 @@ func measure(f func()) float64 {
 // C17: reading allocates nothing; steady-state writing allocates nothing.
 func C17(c *runner.Cfg) *report.Result {
 	res := report.New("C17", "")
-	res.Rule = "message/list shapes from the C01 generator (random trees, wide messages >48 fields, lists of 255/256/300 elements, nesting >14, 64 KiB payloads, structs): (read) ParseValue + every field/element/string/bytes/nested message/struct accessor of pre-built bytes; (write) the same shape written into a reused buffer with a pooled writer (NewMessageWriterBuffer/NewListWriterBuffer) and with a reused owned writer (Reset); oracle: testing.AllocsPerRun(100) == 0 after 3 warm-up runs, a non-zero reading must repeat 3 times; measured single-threaded; non-trivial = shape with >=2 nodes; distinct = distinct encodings"
+	res.Rule = "message/list shapes from the C01 generator (random trees, wide messages >48 fields, lists of 255/256/300 elements, lists and messages of 673/800/1500/5000 entries, nesting >14, 64 KiB payloads, structs): (read) ParseValue + every field/element/string/bytes/nested message/struct accessor of pre-built bytes; (write) the same shape written into a reused buffer with a pooled writer (NewMessageWriterBuffer/NewListWriterBuffer) and with a reused owned writer (Reset); oracle: testing.AllocsPerRun(100) == 0 after 3 warm-up runs, a non-zero reading must repeat 3 times; measured single-threaded; non-trivial = shape with >=2 nodes; distinct = distinct encodings"
 	old := runtime.GOMAXPROCS(1)
 	defer runtime.GOMAXPROCS(old)
 	n := c.N(300, 20000)
@@ -319,7 +319,26 @@ func C17(c *runner.Cfg) *report.Result {
 		slot.SetString(fmt.Sprintf("C17/shape:%d", idx))
 		r := rng.New(c.Seed, "c17/shape", uint64(idx))
 		var p *vg.Node
-		if idx%3 == 0 {
+		if idx%25 == 7 {
+			// very wide containers: tables that grow several times beyond the preallocated 48 entries
+			// (673, 800, 1500, 5000 pending elements / fields at once)
+			cnt := []int{673, 800, 1500, 5000}[(idx/25)%4]
+			p = &vg.Node{Kind: vg.KList}
+			if (idx/100)%2 == 1 {
+				p = &vg.Node{Kind: vg.KMessage}
+			}
+			for k := 0; k < cnt; k++ {
+				leaf := vg.Scalar(vg.KInt32, uint64(k))
+				if p.Kind == vg.KList {
+					p.Elems = append(p.Elems, leaf)
+				} else {
+					p.Fields = append(p.Fields, vg.F(uint16(k+1), leaf))
+				}
+			}
+			if r.Bool() {
+				p = vg.Msg(vg.F(3, p))
+			}
+		} else if idx%3 == 0 {
 			p = vg.Shape(r, idx/3)
 		} else {
 			cfg := vg.DefaultCfg()
